@@ -233,8 +233,9 @@ impl SvgElement {
 //@ replace[R-fmt-tag] <<<self.add_class(&format!("d-{contain_str}"));>>> => <<<self.add_class(contain_str);>>>
 //@ ensures
 //@ - old(self).attrs@.dom().contains("surround"@) && old(self).attrs@.dom().contains("inside"@) ==> r is Err     @@C12.both.error
-//@ - r is Ok && (old(self).attrs@.dom().contains("surround"@) || old(self).attrs@.dom().contains("inside"@)) ==>
-//@       !final(self).attrs@.dom().contains("surround"@) && !final(self).attrs@.dom().contains("inside"@) && !final(self).attrs@.dom().contains("margin"@)     @@C12.attrs.removed
+//@ - r is Ok ==> !final(self).attrs@.dom().contains("surround"@) && !final(self).attrs@.dom().contains("inside"@) && !final(self).attrs@.dom().contains("margin"@)     @@C12.attrs.removed
+//@ - r is Ok && old(self).attrs@.dom().contains("inside"@) ==> inter_spec(boxes_of(*ctx, old(self).attrs@["inside"@], false, old(self).name@)->Some_0) is Some     @@C12.inside.empty_intersection_is_error
+//@ - r is Ok && old(self).attrs@.dom().contains("surround"@) ==> union_spec(boxes_of(*ctx, old(self).attrs@["surround"@], true, old(self).name@)->Some_0) is Some     @@C12.surround.nothing_to_enclose_is_error
 //@ - r is Ok && old(self).attrs@.dom().contains("surround"@) && (old(self).name@ == "rect"@ || old(self).name@ == "box"@) ==> ({
 //@       let bs = boxes_of(*ctx, old(self).attrs@["surround"@], true, old(self).name@)->Some_0;
 //@       let u = union_spec(bs);
